@@ -411,6 +411,13 @@ Definition sites_of (f : string) : nat :=
    The F2 repair (a guarded _remove_final_resets before the measurement suffix) may be present or absent: that is
    property C19's obligation, C05's correspondence accepts both. *)
 Theorem c05_facts :
+  (* one loop over the sorted samples computes the coefficient AND builds that sample's circuits, partitions in the
+     observables' order, groups innermost; the passes run afterwards over every list *)
+  c05_loops = ["0:(z, (map_ids, (redundancy, weight_type))) in enumerate(sorted_samples)";
+               "1:(label, so) in subsystem_observables.items()";
+               "2:(j, cog) in enumerate(so.groups)";
+               "0:subexperiments in subexperiments_dict.values()";
+               "1:circ in subexperiments"] /\
   c05_group_loop_calls = ["_append_measurement_register"; "decompose_qpd_instructions"; "_append_measurement_circuit"; "append"] /\
   (c05_f2_guard = [] \/ c05_f2_guard = ["2"; "not cog.pauli_indices"; "_remove_final_resets"]) /\
   c05_pass_order = ["_remove_resets_in_zero_state"; "_remove_final_resets"; "_consolidate_resets"] /\
